@@ -19,10 +19,14 @@ _DOWN1 = 'same(__arg, (pot[p] + sum(messages[c, p] for c in self.children[p] if 
 _DOWN2 = 'same(__arg, c0[p] * new[p, r].logsumexp(tuple(set(p) - set(r))))'
 _UP = 'same(__arg, cc[p, r] * (pot[r] + sum(messages[c, r] for c in self.children[r]) + sum(messages[p1, r] for p1 in self.parents[r])) - messages[p, r])'
 SITES = [
-    dict(container='cc', name='weight-of-the-upward-message', spec='__arg == c0[p] / (c0[r] + sum(c0[p1] for p1 in self.parents[r]))'),
-    dict(container='new', name='message-update-equation', spec=' or '.join('(%s)' % x for x in (_DOWN1, _DOWN2, _UP, _CENTRED))),
+    dict(container='cc', nth=1, of=1, name='weight-of-the-upward-message', spec='same(__arg, c0[p] / (c0[r] + sum(c0[p1] for p1 in self.parents[r])))'),
+    dict(container='new', nth=1, of=5, name='parent-to-child:weighted-combination', spec=_DOWN1),
+    dict(container='new', nth=2, of=5, name='parent-to-child:summed-over-the-rest-of-the-parent', spec=_DOWN2),
+    dict(container='new', nth=3, of=5, name='parent-to-child:centred', spec=_CENTRED),
+    dict(container='new', nth=4, of=5, name='child-to-parent:equation', spec=_UP),
+    dict(container='new', nth=5, of=5, name='child-to-parent:centred', spec=_CENTRED),
     dict(container='messages', name='damped-update', spec='same(__arg, rho * messages[__key] + (1.0 - rho) * new[__key])'),
-    dict(container='mu', name='belief-equation',
+    dict(container='mu', nth=1, of=1, name='belief-equation',
          spec='same(__arg, ((pot[r] + sum(messages[c, r] for c in self.children[r]) - sum(messages[r, p] for p in self.parents[r])) / c0[r] + '
               '(np.log(self.total) - ((pot[r] + sum(messages[c, r] for c in self.children[r]) - sum(messages[r, p] for p in self.parents[r])) / c0[r]).logsumexp())).exp())'),
 ]
